@@ -570,8 +570,18 @@ impl Property for C06 {
                 };
                 rep.class("system accepted");
                 // the same rows offered as two lexicon files (two read_lexicon calls on one builder) are the same dictionary
-                if !system_csv.contains('"') {
-                    let cuts: Vec<usize> = system_csv.match_indices('\n').map(|(i, _)| i + 1).filter(|i| *i < system_csv.len() && !system_csv[*i..].starts_with('\u{feff}')).collect(); // a byte order mark is only skipped at the start of a file
+                // (rows are cut apart at line ends outside quoted fields; texts that were mutated are only cut when they have no quotes)
+                if !*mutated || !system_csv.contains('"') {
+                    let mut inq = false;
+                    let mut ends: Vec<usize> = Vec::new();
+                    for (i, b) in system_csv.bytes().enumerate() {
+                        if b == b'"' {
+                            inq = !inq;
+                        } else if b == b'\n' && !inq {
+                            ends.push(i + 1);
+                        }
+                    }
+                    let cuts: Vec<usize> = ends.into_iter().filter(|i| *i < system_csv.len() && !system_csv[*i..].starts_with('\u{feff}')).collect(); // a byte order mark is only skipped at the start of a file
                     if !cuts.is_empty() {
                         let at = cuts[(system_csv.len() * 7 + matrix.len()) % cuts.len()];
                         match compile_system_files(matrix, &[&system_csv[..at], &system_csv[at..]]) {
